@@ -24,9 +24,10 @@ import spkigen
 import rtrpdu
 
 THEOREMS = [
-    "Rtr.C18.failure_free_coincides", "Rtr.C18.fail_contained_pfx", "Rtr.C18.fail_contained_spki",
+    "Rtr.C18.failure_free_coincides", "Rtr.C18.preqs_counts", "Rtr.C18.fail_contained_pfx",
+    "Rtr.C18.fail_contained_queries", "Rtr.C18.fail_contained_spki", "Rtr.C18.hashlin_grow_optional",
     "Rtr.C18.fail_keeps_invariant", "Rtr.C18.alloc_count", "Rtr.C18.balanced", "Rtr.C18.configured_free_only",
-    "Rtr.C18.hashlin_grow_optional", "Rtr.C18.sync_fail_clean", "Rtr.C18.sync_no_leak",
+    "Rtr.C18.sync_fail_clean", "Rtr.C18.sync_no_leak",
     "Rtr.C18.F15_unfixed_violates", "Rtr.C18.F16a_unfixed_crashes", "Rtr.C18.F16c_unfixed_violates",
     "Rtr.C18.F16d_unfixed_leaks",
 ]
@@ -1016,12 +1017,14 @@ def run(pid, tier):
 
     plan = []
     mult = 1 if quick else 20
-    plan += [("pfx", 36 * mult), ("spki", 30 * mult), ("spki-big", 6 * mult), ("sync", 48 * mult)]
+    plan += [("pfx", 250 * mult), ("spki", 200 * mult), ("spki-big", 30 * mult), ("sync", 350 * mult)]
     hid = 0
-    stop = False
+    nbad = collections.Counter()
     for kind, count in plan:
         for _ in range(count):
             hid += 1
+            if nbad[kind] >= 12:
+                break                      # this kind of history keeps failing: enough material
             if kind == "pfx":
                 s = hist_pfx(exe, sz, r, hid, r.randrange(8, 40), 0.6)
             elif kind == "spki":
@@ -1031,11 +1034,8 @@ def run(pid, tier):
             else:
                 s = hist_sync(exe, sz, r, hid, 90)
             record(hid, kind, s.ops, s.out, s.crashed, s.h.stderr_text() if s.crashed else "", s.j)
-            if quick and (s.crashed or s.j.fails) and sum(1 for x in sessions if x["crashed"] or x["fails"]) >= 4:
-                stop = True
-                break
-        if stop:
-            break
+            if s.crashed or s.j.fails:
+                nbad[kind] += 1
 
     # ---- model side: replay every recorded op file on the driver, compare
     divergences = []
@@ -1111,11 +1111,19 @@ def run(pid, tier):
             rep.build_log = "generator did not reach: %s" % missing
             vlib.proof_failure(rep, "coverage gate of the C18 generator (allocation sites never refused)")
 
-    # ---- verdicts
+    # ---- verdicts: one replay per distinct failure class (crash signature / violated clause), corpus first
+    seen_sig = set()
     shown = 0
     for x in bad_sessions:
-        if shown >= 4:
+        if shown >= 8:
             break
+        if x["crashed"]:
+            sig0 = "crash:" + crash_signature(x["err"])
+        else:
+            sig0 = x["fails"][0][0] + ":" + x["kind"]
+        if sig0 in seen_sig and not str(x["hid"]).startswith("corpus:"):
+            continue
+        seen_sig.add(sig0)
         if x["crashed"]:
             ops = minimise(exe, sz, x["ops"], lambda o, c, e, j: c)
             out, crashed, err, j = replay(exe, sz, ops)
